@@ -42,15 +42,20 @@ def norm_ref_text(t):
     return t
 
 
-def sort_unscaled_pair(t):
-    """[r1+r2+d] with two unscaled registers, none of them ebp/esp: base and index roles are interchangeable."""
+def sort_unscaled_pair(t, ebp_too=False):
+    """[r1+r2+d] with two unscaled registers, none of them ebp/esp: base and index roles are interchangeable.
+    For lea the default segment plays no role, so ebp is interchangeable too (ebp_too forces that reading)."""
+    lea = t.startswith('lea ') or ebp_too
+
     def f(m):
         a, b_, rest = m.group(1), m.group(2), m.group(3) or ''
-        if a in ('ebp', 'esp') or b_ in ('ebp', 'esp'):
+        if 'esp' in (a, b_) or ('ebp' in (a, b_) and not lea):
             return m.group(0)
         x, y = sorted((a, b_))
         return '[%s+%s%s]' % (x, y, rest)
-    return re.sub(r'\[(e[a-ds][xipd])\+(e[a-ds][xipd])([+-]0x[0-9a-f]+)?\]', f, t)
+    t = re.sub(r'\[(e[a-ds][xipd])\+(e[a-ds][xipd])([+-]0x[0-9a-f]+)?\]', f, t)
+    # [r+r] and [r*2] are the same address with the same default segment unless r is ebp (ss vs ds)
+    return re.sub(r'\[(e[a-ds][xi]%s)\+\1([+-]0x[0-9a-f]+)?\]' % ('|ebp' if lea else ''), lambda m: '[%s*2%s]' % (m.group(1), m.group(2) or ''), t)
 
 
 def drop_default_ds(t):
